@@ -299,19 +299,29 @@ impl AuthorizationRulesForLogging {
         };
         if files.len() >= max_file_count {
             let mut count = max_file_count;
+            let mut all_removed = true;
             for file in &files {
-                std::fs::remove_file(file).unwrap_or_else(|e| {
+                if let Err(e) = std::fs::remove_file(file) {
                     logger::write_error(format!(
                         "Failed to remove the old authorization rules file {} with error: {}",
                         file.display(),
                         e
                     ));
-                });
+                    all_removed = false;
+                }
                 count += 1;
 
                 if count > files.len() {
                     break;
                 }
+            }
+            if !all_removed {
+                // no room was made: do not add one more file, the max file count must hold
+                logger::write_error(format!(
+                    "Skip writing the authorization rules file under dir {}.",
+                    path_dir.display()
+                ));
+                return;
             }
         }
 
